@@ -412,6 +412,7 @@ func runShared(c *Ctx) {
 	counts := map[string]int{}
 	seenKey := map[string]int{}
 	nImmut := 0
+	_, onceF, memoF := c.funcFieldsByRole()
 	// constructs are named by role where the function has one (or is a private step of a role function), so that
 	// renaming or splitting it does not change the identity of an obligation (and of a known finding)
 	roleName := map[*ssa.Function]string{}
@@ -542,6 +543,14 @@ func runShared(c *Ctx) {
 			what := owner + "." + field
 			if owner == "" {
 				what = root + " " + core.TypeStr(w.target.Type())
+			}
+			// the run-once flag and memo of Func are named by role, wherever they are kept
+			if w.kind == "store" {
+				if _, ok := c.funcFieldAddr(w.target, memoF); ok && memoF != "" {
+					what = "Func.(run-once memo)"
+				} else if _, ok := c.funcFieldAddr(w.target, onceF); ok && onceF != "" {
+					what = "Func.(run-once flag)"
+				}
 			}
 			key := fmt.Sprintf("%s|%s|%s", fname, w.kind, what)
 			seenKey[key]++
